@@ -258,7 +258,9 @@ func init() {
 			_ = name
 		}
 		names := []string{"nil", "uint", "uintptr", "struct-uint", "named-u", "int", "bool", "string", "empty-str", "nil-slice",
-			"empty-slice", "slice3", "array3", "nil-ptr", "ptr", "nil-map", "map", "iface-field", "nested", "complex"}
+			"empty-slice", "slice3", "array3", "nil-ptr", "ptr", "nil-map", "map", "iface-field", "nested", "complex",
+			"big-structs-4095", "big-structs-4096", "big-structs-9000", "big-array", "big-strings", "big-bytes",
+			"alias-slice", "alias-fields", "alias-map"}
 		for _, n := range names {
 			g.emit("sizeofnamed %s", n)
 		}
